@@ -54,6 +54,7 @@ CONSTANTS
   OblLockCover,      \* C03: every written row is named in the registration
   OblDirtyRefused,   \* C09: a rollback refuses rows somebody else has changed
   OblIdempotent,     \* C10: a repeated rollback does nothing
+  OblMarker,         \* C10: a rollback that finds no undo log leaves a marker, on which a late flush of the branch fails
   OblFence,          \* C06: confirm/cancel at most once and never both; empty rollback suspends
   OblP1Atomic,       \* C02: business writes and the undo log are committed together (or not at all)
   OblLockQuery,      \* C03: a locking read returns rows only after the coordinator confirmed they are lockable
@@ -127,6 +128,7 @@ Business(g, o) ==
   /\ p1err[g] => o = "err"                               \* an honest business callback does not hide a failed statement
   \* the callback cannot end while one of its statements is still inside phase one of an XA branch
   /\ \A i \in 1..Len(branches[g]) : branches[g][i].kind = "XA" => xa[<<g, i>>] # "none"
+  /\ \A i \in 1..Len(branches[g]) : ~branches[g][i].open
   /\ outcome' = [outcome EXCEPT ![g] = o]
   /\ UNCHANGED <<gst, branches, lock, val, undo, before, fence, eff, sent, net, dups, nforeign>>
 
@@ -151,25 +153,44 @@ Timeout(g) ==
 -----------------------------------------------------------------------------
 (* AT phase one (C02, C03): register (locks granted or refused) -> write rows + undo log in one local commit *)
 
+\* Phase one of an AT branch is two steps for the coordinator: the registration (ATOpen: locks granted or refused)
+\* and, later, the local commit of business writes + undo log (ATClose).  In between the coordinator may time the
+\* global transaction out and roll the registered branch back (C10: the rollback overtakes phase one).
 \* rows: the rows this local transaction writes; named: the rows the registration names
-ATBranch(g, rows, named) ==
+ATOpen(g, rows, named) ==
   /\ gst[g] \in {"begun", "rollbacking"}            \* a late phase one may overlap a timeout rollback (C10)
   /\ outcome[g] = "none"
   /\ Len(branches[g]) < MaxBranches
+  /\ \A i \in 1..Len(branches[g]) : ~branches[g][i].open   \* the business callback runs its statements one after the other
   /\ rows # {} /\ named \subseteq rows
   /\ OblLockCover => named = rows
-  /\ LET i == Len(branches[g]) + 1 IN
-     IF gst[g] = "begun" /\ \A r \in named : lock[r] \in {NoG, g}
-     THEN \* registration granted: the local transaction commits business writes + undo log together
-          /\ branches' = [branches EXCEPT ![g] = Append(@, [kind |-> "AT", rows |-> rows, act |-> "", st |-> "p1done"])]
+  /\ IF gst[g] = "begun" /\ \A r \in named : lock[r] \in {NoG, g}
+     THEN \* registration granted
+          /\ branches' = [branches EXCEPT ![g] = Append(@, [kind |-> "AT", rows |-> rows, act |-> "", st |-> "p1run", open |-> TRUE])]
           /\ lock' = [r \in Rows |-> IF r \in named THEN g ELSE lock[r]]
-          /\ before' = [before EXCEPT ![<<g, i>>] = [r \in Rows |-> val[r]]]
+     ELSE \* refused (lock conflict, or the transaction is no longer active): the local transaction rolls back
+          UNCHANGED <<branches, lock>>
+  /\ UNCHANGED <<gst, val, undo, before, fence, eff, outcome, sent, net, dups, nforeign, xa, p1err, dirtyRead>>
+
+\* the local commit: business writes + undo log together - unless the branch's rollback came first and left its
+\* marker, on whose unique key the flush of the undo log fails: then nothing is committed and the statement fails
+ATClose(g, i) ==
+  /\ i \in 1..Len(branches[g]) /\ branches[g][i].kind = "AT" /\ branches[g][i].open
+  /\ outcome[g] = "none"
+  /\ LET s == <<g, i>>
+         rows == branches[g][i].rows IN
+     IF undo[s] = "marker"
+     THEN /\ branches' = [branches EXCEPT ![g][i].open = FALSE]
+          /\ p1err' = [p1err EXCEPT ![g] = TRUE]
+          /\ UNCHANGED <<before, val, undo>>
+     ELSE /\ branches' = [branches EXCEPT ![g][i].open = FALSE,
+                                           ![g][i].st = IF @ = "p1run" THEN "p1done" ELSE @]
+          /\ before' = [before EXCEPT ![s] = [r \in Rows |-> val[r]]]
           /\ val' = [r \in Rows |-> IF r \in rows THEN g ELSE val[r]]
-          /\ \/ undo' = [undo EXCEPT ![<<g, i>>] = "normal"]
+          /\ \/ undo' = [undo EXCEPT ![s] = "normal"]
              \/ ~OblP1Atomic /\ UNCHANGED undo      \* the writes are durable, their undo log is not
-     ELSE \* refused (lock conflict, or the transaction is no longer active): nothing is committed
-          UNCHANGED <<branches, lock, before, val, undo>>
-  /\ UNCHANGED <<gst, fence, eff, outcome, sent, net, dups, nforeign>>
+          /\ UNCHANGED p1err
+  /\ UNCHANGED <<gst, lock, fence, eff, outcome, sent, net, dups, nforeign, xa, dirtyRead>>
 
 -----------------------------------------------------------------------------
 (* TCC phase one (C05): register, then try (fenced) *)
@@ -178,7 +199,7 @@ TCCBranch(g, a) ==
   /\ gst[g] = "begun" /\ outcome[g] = "none"
   /\ Len(branches[g]) < MaxBranches
   /\ LET i == Len(branches[g]) + 1 IN
-     /\ branches' = [branches EXCEPT ![g] = Append(@, [kind |-> "TCC", rows |-> {}, act |-> a, st |-> "registered"])]
+     /\ branches' = [branches EXCEPT ![g] = Append(@, [kind |-> "TCC", rows |-> {}, act |-> a, st |-> "registered", open |-> FALSE])]
      /\ UNCHANGED <<fence, eff>>
   /\ UNCHANGED <<gst, lock, val, undo, before, outcome, sent, net, dups, nforeign>>
 
@@ -252,7 +273,7 @@ ATRollback(m) ==
             /\ net' = net \ {m}
             /\ IF OblIdempotent THEN UNCHANGED val
                ELSE val' = [r \in Rows |-> IF r \in rows THEN before[s][r] ELSE val[r]]   \* a non-idempotent undo
-            /\ undo' = [undo EXCEPT ![s] = "marker"]
+            /\ undo' = [undo EXCEPT ![s] = IF OblMarker THEN "marker" ELSE @]
             /\ branches' = SetBranch(m.g, m.i, "rollbacked")
   /\ UNCHANGED <<gst, lock, before, fence, eff, outcome, sent, dups, nforeign>>
 
@@ -317,7 +338,7 @@ Close(g) ==
 XAOpen(g) ==
   /\ AllowXA /\ gst[g] = "begun" /\ outcome[g] = "none"
   /\ Len(branches[g]) < MaxBranches
-  /\ branches' = [branches EXCEPT ![g] = Append(@, [kind |-> "XA", rows |-> {}, act |-> "", st |-> "p1run"])]
+  /\ branches' = [branches EXCEPT ![g] = Append(@, [kind |-> "XA", rows |-> {}, act |-> "", st |-> "p1run", open |-> FALSE])]
   /\ UNCHANGED <<gst, lock, val, undo, before, fence, eff, outcome, sent, net, dups, nforeign, xa, p1err, dirtyRead>>
 
 \* ok = FALSE: XA END / XA PREPARE (or a statement) failed; the client rolls the branch back in the database.
@@ -368,11 +389,12 @@ Next ==
      /\ \/ \E g \in G : Begin(g) \/ Timeout(g) \/ Close(g)
         \/ \E g \in G, o \in {"nil", "err"} : Business(g, o)
         \/ \E g \in G, d \in {"commit", "rollback"} : Decide(g, d)
-        \/ \E g \in G, rows \in SUBSET Rows, named \in SUBSET Rows : ATBranch(g, rows, named)
         \/ \E g \in G, a \in Acts : TCCBranch(g, a)
         \/ \E g \in G, i \in BIdx : Try(g, i) \/ Issue(g, i)
         \/ \E r \in Rows : ForeignWrite(r)
         \/ \E m \in net : Duplicate(m) \/ Lose(m) \/ ATCommit(m) \/ ATRollback(m) \/ ATRollbackLie(m) \/ TCCPhaseTwo(m)
+  \/ \E g \in G, rows \in SUBSET Rows, named \in SUBSET Rows : ATOpen(g, rows, named)
+  \/ \E g \in G, i \in BIdx : ATClose(g, i)
   \/ \E g \in G : XAOpen(g)
   \/ \E g \in G, i \in BIdx, ok \in BOOLEAN : XAClose(g, i, ok)
   \/ \E g \in G, rows \in SUBSET Rows : LockingRead(g, rows)
@@ -444,9 +466,11 @@ RollbackPossible ==
         /\ \A j \in (i + 1)..Len(branches[g]) : branches[g][j].st = "rollbacked")
       => \A r \in branches[g][i].rows : val[r] \in {g, Foreign} \/ val[r] = before[<<g, i>>][r]
 
-\* a foreign write is never overwritten by a rollback (C09): checked as an action property
+\* a foreign write is never overwritten by a rollback (C09): checked as an action property.  What may overwrite it is
+\* the business write of a global transaction - whose local commit (ATClose) may come while the coordinator is
+\* already rolling the transaction back on a time-out (the write is then undone to the foreign value again)
 ForeignSafe == [][\A r \in Rows : (val[r] = Foreign /\ val'[r] # Foreign) =>
-                    \E g \in G : val'[r] = g /\ gst'[g] \in {"begun"}]_vars
+                    \E g \in G : val'[r] = g /\ gst'[g] \in {"begun", "rollbacking"}]_vars
 
 TypeOK ==
   /\ gst \in [G -> {"none", "begun", "committing", "rollbacking", "committed", "rollbacked"}]
